@@ -7,15 +7,19 @@
 
     The history is the list of commands issued on the statement, each with one
     observation taken BEFORE the command: where the command's pod sits (its
-    NodeName and GPU groups).  That observation is what decides whether a
-    Pipeline is a nomination or an un-eviction (Statement.Pipeline(task, node,
-    false) on the node the pod already sits on, to the devices it was evicted
-    from, withdraws the pod's earliest eviction instead of nominating it).
+    NodeName and GPU groups) and whether it is Releasing.  The place is what
+    decides whether a Pipeline is a nomination or an un-eviction
+    (Statement.Pipeline(task, node, false) on the node the pod already sits on,
+    to the devices it was evicted from, withdraws the pod's earliest eviction
+    instead of nominating it); an Evict of a pod that is already Releasing
+    (evicted before, or terminating anyway) is not a step at all.
 
     [hstate]: for every number of operations recorded so far (the value a
     Checkpoint returns), the steps that were still valid at that point, oldest
     first.  The last element is the present.
-      Evict p            a new valid eviction of p
+      Evict p            a new valid eviction of p; nothing when p is already
+                         Releasing (no second eviction of an evicted pod, no
+                         eviction of a terminating pod)
       Allocate p n       a new valid allocation of p on n
       Pipeline p n       a new valid nomination of p on n, or, on the pod's own
                          node and devices, the un-eviction of p
@@ -79,18 +83,21 @@ Definition to_nomination (jobof : positive -> option positive) (j : positive) (i
   | _ => it
   end.
 
-(** one command; [loc]: NodeName and GPU groups of the command's pod before the command *)
-Definition hstep (jobof : positive -> option positive) (hs : hstate) (c : cmd)
-           (loc : option positive * list positive) : hstate :=
+(** what is observed of the command's pod before the command: NodeName, GPU groups, status = Releasing *)
+Record place := mkPlace { pl_node : option positive; pl_groups : list positive; pl_releasing : bool }.
+Definition nowhere : place := mkPlace None [] false.
+
+(** one command; [loc]: the place of the command's pod before the command *)
+Definition hstep (jobof : positive -> option positive) (hs : hstate) (c : cmd) (loc : place) : hstate :=
   let V := hcur hs in
   let n := hlen hs in
   match c with
-  | Evict p => hs ++ [V ++ [VEv p (snd loc) n]]
+  | Evict p => if pl_releasing loc then hs else hs ++ [V ++ [VEv p (pl_groups loc) n]]
   | Allocate p nd _ => hs ++ [V ++ [VPl true p nd n]]
   | Unevict p => match pop_ev p V with Some (_, V') => hs ++ [V'] | None => hs end
   | Pipeline p nd gs upd =>
       let nominate := hs ++ [V ++ [VPl false p nd n]] in
-      if negb upd && sits_on (fst loc) nd then
+      if negb upd && sits_on (pl_node loc) nd then
         match pop_ev p V with
         | Some (VEv _ pg _, V') => if same_devices gs pg then hs ++ [V'] else nominate
         | _ => nominate
@@ -122,10 +129,13 @@ Definition cmd_pod (c : cmd) : option positive :=
   | Evict p | Pipeline p _ _ _ | Allocate p _ _ | Unevict p => Some p
   | _ => None
   end.
-Definition loc_of (s : sess) (c : cmd) : option positive * list positive :=
+Definition loc_of (s : sess) (c : cmd) : place :=
   match cmd_pod c with
-  | Some p => match get_pod s p with Some x => (p_node x, p_groups x) | None => (None, []) end
-  | None => (None, [])
+  | Some p => match get_pod s p with
+              | Some x => mkPlace (p_node x) (p_groups x) (status_eqb (p_status x) Releasing)
+              | None => nowhere
+              end
+  | None => nowhere
   end.
 Definition no_job (_ : positive) : option positive := None.
 Fixpoint hist_from (fails : nat -> bool) (s : sess) (hs : hstate) (prog : list cmd) : hstate :=
